@@ -1,23 +1,43 @@
 /- Instrumented run (not part of any theorem): what a routine leaves on the operand stack whenever
    control leaves it.
 
-   At every `retsub` the recorded list is the part of the stack that belongs to the ACTIVATION that
-   returns: the values above the lowest stack height reached since its `callsub` (the callee pops its
-   arguments under the scratch-slot convention, so that height is "entry minus arguments").  What lies
-   below belongs to the callers - under the scratch-slot convention a recursive caller parks its live
-   local slots there (spill code), and how many there are depends on how many slots the caller owns,
-   which is not behaviour of the routine that returns. -/
+   At every `retsub` three things are recorded for the ACTIVATION that returns:
+     * `delta`  = stack height at the `retsub` minus the height at its `callsub`
+                  (results minus arguments popped: the same in two programs that leave the same values);
+     * `span`   = how far below the exit height the stack was observed during the activation
+                  (exit height minus the lowest height seen between two instructions since the `callsub`);
+     * the whole stack.
+   Two exits AGREE when the deltas are equal and the top `max span₁ span₂` values are equal.  What lies
+   deeper belongs to the callers: under the scratch-slot convention a recursive caller parks its live
+   local slots there (spill code), and how many there are depends on how many slots the caller owns
+   (the scratch-slot optimiser removes slots), which is not behaviour of the routine that returns.
+   A value left behind by the returning routine changes `delta`. -/
 import PyTealV.Avm.Sem
 namespace PyTealV.Avm
 
-structure ExitTrace where
-  exits : List (List Val) := []     -- own part of the stack at every retsub (newest first), before the frame is popped
-  final : List Val := []            -- stack when the program halted
-  lows : List Nat := []             -- lowest stack height of every active call (innermost first)
+structure ExitRec where
+  delta : Int
+  span : Nat
+  stack : List Val
+  deriving BEq
 
-private def bump (h : Nat) : List Nat → List Nat
+structure ExitTrace where
+  exits : List ExitRec := []        -- newest first; taken before the frame is popped
+  final : List Val := []            -- stack when the program halted
+  lows : List (Nat × Nat) := []     -- (height at callsub, lowest height since) of every active call, innermost first
+
+private def bump (h : Nat) : List (Nat × Nat) → List (Nat × Nat)
   | [] => []
-  | l :: ls => min l h :: ls
+  | (e, l) :: ls => (e, min l h) :: ls
+
+def ExitRec.agrees (a b : ExitRec) : Bool :=
+  let k := max a.span b.span
+  a.delta == b.delta && a.stack.take k == b.stack.take k
+
+def exitsAgree : List ExitRec → List ExitRec → Bool
+  | [], [] => true
+  | a :: as, b :: bs => a.agrees b && exitsAgree as bs
+  | _, _ => false
 
 def runTraced (cx : Ctx) (p : Program) : Nat → St → ExitTrace → Outcome × ExitTrace
   | 0, s, t => (.outOfFuel, { t with final := s.ms.stack })
@@ -28,9 +48,10 @@ def runTraced (cx : Ctx) (p : Program) : Nat → St → ExitTrace → Outcome ×
       | some ln => (match ln.instr with
         | .retsub =>
           (match t0.lows with
-           | l :: rest => { t0 with exits := s.ms.stack.take (h - l) :: t0.exits, lows := bump l rest }
-           | [] => { t0 with exits := s.ms.stack :: t0.exits })
-        | .callsub _ => { t0 with lows := h :: t0.lows }
+           | (e, l) :: rest =>
+             { t0 with exits := { delta := (h : Int) - (e : Int), span := h - l, stack := s.ms.stack } :: t0.exits, lows := bump l rest }
+           | [] => { t0 with exits := { delta := 0, span := h, stack := s.ms.stack } :: t0.exits })
+        | .callsub _ => { t0 with lows := (h, h) :: t0.lows }
         | _ => t0)
       | none => t0
     match step cx p s with
